@@ -31,6 +31,8 @@ pub enum SyncMode {
     Bytes(usize),
     /// the builder's defaults (5 ms / 50 ms / 50 events / 4096 bytes)
     Defaults,
+    /// (interval ms, idle ms, max batch events, min sync bytes)
+    Custom(u64, u64, usize, usize),
 }
 
 #[derive(Serialize, Deserialize, Clone, Debug, PartialEq, Eq, Hash)]
@@ -89,6 +91,9 @@ pub fn builder(cfg: &DbCfg) -> DatabaseBuilder {
             b.sync_interval(Duration::MAX).sync_idle_interval(Duration::MAX).max_batch_size(usize::MAX).min_sync_bytes(n);
         }
         SyncMode::Defaults => {}
+        SyncMode::Custom(i, idle, batch, bytes) => {
+            b.sync_interval(Duration::from_millis(i)).sync_idle_interval(Duration::from_millis(idle)).max_batch_size(batch).min_sync_bytes(bytes);
+        }
     }
     b
 }
